@@ -10,6 +10,14 @@ for _ in range(N):
     picks = rnd.sample(pool, 6)
     docs = [p['doc'] for p in picks[:4]]
     queries = [p['q'] for p in picks] + rnd.sample(['$..*', '$[*]', '$..[?@.a]', '$.a', '$[0,0]', '$[?@==1]', 'not a query', '$[?match(@, "a.*")]', '$[?count(@.*)>0]'], 3)
+    # queries that share sub-terms (same regular expression under match and search, same names under different selectors):
+    # a cache keyed on too little shows up as a result that depends on what ran before
+    pat = rnd.choice(['a', 'ab', 'a.', 'b|a', '[ab]+', 'x*'])
+    docs.append([pat, 'x' + pat + 'x', 'ab', 'xabx', 'b', 1, None]); docs.append({'re': pat, 's': ['ab', 'xabx', 'a']})
+    fam = ["$[?match(@, '%s')]" % pat, "$[?search(@, '%s')]" % pat, "$.s[?match(@, $.re)]", "$.s[?search(@, $.re)]", '$..a', "$..['a']", '$.a', "$['a']", '$[?@.a]', '$[?@.a==1]']
+    rnd.shuffle(fam)
+    queries += fam
     ops = [[rnd.randrange(len(queries)), rnd.randrange(len(docs))] for _ in range(rnd.choice([8, 16, 24]))]
+    ops += [[queries.index(q), len(docs) - rnd.choice([1, 2])] for q in fam[:6]]
     ops += rnd.sample(ops, min(4, len(ops)))      # deliberate repetitions
     print(json.dumps({'docs': docs, 'tdocs': [tag(d) for d in docs], 'queries': queries, 'ops': ops, 'threads': rnd.choice([2, 4, 8])}, ensure_ascii=False))
